@@ -6,10 +6,10 @@ DRIVER = "c17"
 PROPS_MODULE = "OxyModel.Props.C17"
 AUDIT = "OxyModel/Audit/C17.lean"
 THEOREMS = ["C17.C17_constructor", "C17.C17_exact", "C17.C17_lower", "C17.C17_upper", "C17.C17_ages_out",
-            "C17.C17_ratio", "C17.C17_ratio_empty"]
+            "C17.C17_ratio", "C17.C17_ratio_empty", "C17.C17_clone_independent"]
 RACE = False
 JOBS = 8
-RULE = ("scenario = one RollingCounter or RatioCounter (n 1-12, r from 1s/1.5s/2s/2.5s/3s/7s/10s/60s and odd ns values) driven by "
+RULE = ("scenario = one RollingCounter (optionally with a Clone() snapshot used next to it) or RatioCounter (n 1-12, r from 1s/1.5s/2s/2.5s/3s/7s/10s/60s and odd ns values) driven by "
         "inc/count/reset (inca/incb/ratio/ready) at non-decreasing clock readings: bursts, sub-resolution steps, steps of exactly "
         "k*r and k*r+-1, multi-window gaps; non-trivial = some read returns a value strictly between 0 and the sum of all "
         "increments since the last reset (part of the history has aged out, part is still counted)")
@@ -41,7 +41,7 @@ def _steps(rng, n, r):
     return rng.randint(1, 4) * n * r + rng.randint(0, n * r)
 
 
-def _scenario(rng, n, r, ratio, length, neg=False, admin=False):
+def _scenario(rng, n, r, ratio, length, neg=False, admin=False, duo=False):
     lines = ["cfg n=%d r=%d%s" % (n, r, " ratio" if ratio else "")]
     t = rng.choice([0, 0, rng.randint(0, 3 * r), rng.randint(0, r - 1)])
     vals = [1, 1, 1, 2, 3, 5, 10, 0, 1000]
@@ -66,6 +66,26 @@ def _scenario(rng, n, r, ratio, length, neg=False, admin=False):
                 lines.append("reset")
             else:
                 lines.append("at %d window" % t)
+        elif duo and rng.random() < 0.45:
+            # a snapshot (Clone) lives next to the counter: interleave snapshot reads / increments with
+            # increments and reads of the live counter, across slot boundaries
+            k2 = rng.random()
+            if k2 < 0.18:
+                lines.append("at %d snap" % t)
+            elif k2 < 0.70:
+                lines.append("at %d scount" % t)
+                if rng.random() < 0.7:
+                    lines.append("at %d count" % t)
+            elif k2 < 0.88:
+                lines.append("at %d sinc %d" % (t, rng.choice(vals)))
+                if rng.random() < 0.5:
+                    lines.append("at %d count" % t)
+            elif k2 < 0.94:
+                lines.append("at %d scounted" % t)
+            elif k2 < 0.97:
+                lines.append("at %d sreset" % t)
+            else:
+                lines.append("at %d count" % t)
         else:
             if k < pinc:
                 lines.append("at %d inc %d" % (t, rng.choice(vals)))
@@ -95,7 +115,7 @@ def gen(rng, tier):
         n = rng.randint(1, 12)
         r = rng.choice(RES)
         yield _scenario(rng, n, r, ratio=rng.random() < 0.3, length=rng.randint(length // 3, length),
-                        neg=rng.random() < 0.1, admin=rng.random() < 0.1)
+                        neg=rng.random() < 0.1, admin=rng.random() < 0.1, duo=rng.random() < 0.3)
 
 
 def exhaustive(tier):
@@ -123,6 +143,17 @@ def exhaustive(tier):
                 lines.append("at %d count" % t)
                 t += r // 2
             yield lines
+            # Clone(): snapshot after one increment, live counter keeps counting in later slots, then the
+            # snapshot is read / incremented and the live counter read again (both must be unaffected)
+            if n >= 2:
+                for use in ("scount", "sinc 5"):
+                    lines = ["cfg n=%d r=%d" % (n, r), "at 0 inc 1", "at 0 snap"]
+                    for k in range(1, n):
+                        lines.append("at %d inc %d" % (k * r, 10 ** min(k, 6)))
+                    t = (n - 1) * r
+                    lines += ["at %d count" % t, "at %d %s" % (t, use), "at %d count" % t, "at %d scount" % t,
+                              "at %d count" % (t + r), "at %d scount" % (t + r)]
+                    yield lines
             # sparse reads only at the end: a single read after a gap g must see exactly the right tail
             for g in (0, (n - 1) * r, n * r - 1, n * r, (n + 1) * r):
                 lines = ["cfg n=%d r=%d ratio" % (n, r), "at 0 inca 3", "at 1 incb 4", "at %d inca 1" % (r + 1), "at %d ratio" % (r + 1 + g)]
@@ -149,13 +180,15 @@ def _bounds(log, now, n, r):
 
 
 def _walk(ops, outs):
-    """yield ('read', now, n, r, result:int, log, sound) for counters and ('ratio', now, n, r, out, logA, logB, sound)
-    for ratio counters; 'sound' = the raw log is complete and all increments are non-negative."""
+    """yield ('read', now, n, r, result, log, sound, who) for counters (who = 'live' | 'snapshot') and
+    ('ratio', now, n, r, out, logA, logB, sound) for ratio counters; 'sound' = the raw log of that object is complete
+    and all its increments are non-negative.  A snapshot (op `snap` = Clone()) starts with a copy of the live
+    counter's log and from then on has its own: nothing done to one object may show in the other."""
     n = r = None
     ratio = False
     now = 0
-    logs = {"a": [], "b": []}
-    sound = True
+    logs = {"a": [], "b": [], "s": None}
+    sound = {"a": True, "s": True}
     alive = False
     for l, o in zip(ops, outs):
         f = l.split()
@@ -164,8 +197,8 @@ def _walk(ops, outs):
         if f[0] == "cfg":
             n, r, ratio = _cfg(l)
             now = 0
-            logs = {"a": [], "b": []}
-            sound = True
+            logs = {"a": [], "b": [], "s": None}
+            sound = {"a": True, "s": True}
             alive = (o == "ok")
             yield ("cfg", n, r, o)
             continue
@@ -184,17 +217,35 @@ def _walk(ops, outs):
         if op in ("inc", "inca", "incb") and len(f) == 2:
             v = int(f[1])
             if v < 0:
-                sound = False
+                sound["a"] = False
             logs["b" if op == "incb" else "a"].append((now, v))
         elif op == "reset":
-            logs = {"a": [], "b": []}
-            sound = True
+            logs["a"], logs["b"] = [], []
+            sound["a"] = True
         elif op == "append":
-            sound = False       # adds Count() of a clone: amount not visible on the op line
+            sound["a"] = False       # adds Count() of a clone: amount not visible on the op line
         elif op == "count" and not ratio:
-            yield ("read", now, n, r, o, list(logs["a"]), sound)
+            yield ("read", now, n, r, o, list(logs["a"]), sound["a"], "live")
         elif op == "ratio" and ratio:
-            yield ("ratio", now, n, r, o, list(logs["a"]), list(logs["b"]), sound)
+            yield ("ratio", now, n, r, o, list(logs["a"]), list(logs["b"]), sound["a"])
+        elif op == "snap" and not ratio:
+            logs["s"] = list(logs["a"])
+            sound["s"] = sound["a"]
+        elif op in ("sinc", "scount", "sreset", "scounted") and not ratio:
+            if logs["s"] is None:
+                if o != "none":
+                    yield ("crash", now, l, o)
+                continue
+            if op == "sinc" and len(f) == 2:
+                v = int(f[1])
+                if v < 0:
+                    sound["s"] = False
+                logs["s"].append((now, v))
+            elif op == "sreset":
+                logs["s"] = []
+                sound["s"] = True
+            elif op == "scount":
+                yield ("read", now, n, r, o, list(logs["s"]), sound["s"], "snapshot")
 
 
 def monitor(ops, outs):
@@ -208,19 +259,19 @@ def monitor(ops, outs):
         elif ev[0] == "crash":
             bad.append("crash: %r at clock %d -> %s" % (ev[2], ev[1], ev[3]))
         elif ev[0] == "read":
-            _, now, n, r, o, log, sound = ev
+            _, now, n, r, o, log, sound, who = ev
             try:
                 c = int(o)
             except ValueError:
-                bad.append("read: Count() produced %r" % o)
+                bad.append("read: Count() of the %s counter produced %r" % (who, o))
                 continue
             if not sound:
                 continue
             lo, hi = _bounds(log, now, n, r)
             if c < lo:
-                bad.append("lower: Count()=%d at clock %d but increments within the last (N-1)*r=%dns sum to %d (n=%d r=%d): recent events lost" % (c, now, (n - 1) * r, lo, n, r))
+                bad.append("lower: %s counter Count()=%d at clock %d but its increments within the last (N-1)*r=%dns sum to %d (n=%d r=%d): recent events lost" % (who, c, now, (n - 1) * r, lo, n, r))
             elif c > hi:
-                bad.append("upper: Count()=%d at clock %d but increments within the last N*r=%dns sum to %d (n=%d r=%d): old events not aged out" % (c, now, n * r, hi, n, r))
+                bad.append("upper: %s counter Count()=%d at clock %d but its increments within the last N*r=%dns sum to %d (n=%d r=%d): old events not aged out" % (who, c, now, n * r, hi, n, r))
         elif ev[0] == "ratio":
             _, now, n, r, o, la, lb, sound = ev
             f = o.split()
@@ -287,6 +338,7 @@ def describe(ops, outs, hist):
         if ev[0] == "read" and ev[6]:
             lo, hi = _bounds(ev[5], ev[1], ev[2], ev[3])
             total = sum(v for _, v in ev[5])
+            hist["read-of:" + ev[7]] += 1
             hist["read:" + ("empty-log" if not ev[5] else "all-in" if lo == total else "all-out" if hi == 0 else
                             "bounds-differ" if lo != hi else "partial")] += 1
 
